@@ -63,7 +63,7 @@ mod verif_c01_helpers {
         kani::cover!(n == 2 && g == 5 && sb.is_some());
         kani::cover!(n == 1 && g == 0);
     }
-    //@harness fns=PackedDeltas::consume_all,PackedDeltas::iter,DeltaRunIter::next bound="any bytes <=6 B; the iteration is followed to its end"
+    //@harness fns=PackedDeltas::consume_all,PackedDeltas::iter,DeltaRunIter::next tier=thorough timeout=2400 bound="any bytes <=6 B; the iteration is followed to its end"
     #[kani::proof]
     #[kani::unwind(70)]
     fn packed_deltas_iter_total() {
@@ -82,7 +82,7 @@ mod verif_c01_helpers {
         assert!(n < 30); // ends: at most 6 runs of at most 4 values
         kani::cover!(n >= 5);
     }
-    //@harness fns=PackedPointNumbers::split_off_front,PackedPointNumbers::iter,PackedPointNumbersIter::next bound="any bytes <=6 B; iteration followed to its end"
+    //@harness fns=PackedPointNumbers::split_off_front,PackedPointNumbers::iter,PackedPointNumbersIter::next tier=thorough timeout=2400 bound="any bytes <=6 B; iteration followed to its end"
     #[kani::proof]
     #[kani::unwind(12)]
     fn packed_point_numbers_total() {
@@ -100,7 +100,7 @@ mod verif_c01_helpers {
         kani::cover!(n >= 2);
         kani::cover!(n == 0 && len > 0);
     }
-    //@harness fns=Post::read,Post::num_names,Post::glyph_name bound="any bytes <=40 B, any glyph id"
+    //@harness fns=Post::read,Post::num_names,Post::glyph_name tier=thorough timeout=2400 bound="any bytes <=40 B, any glyph id"
     #[kani::proof]
     #[kani::unwind(10)]
     fn post_glyph_name_total() {
